@@ -635,6 +635,8 @@ def shape_probe(ck, db, hs):
     acc = shaped = 0
     for op, o in zip(ops, out):
         r = o[-1] if o else ""
+        if "shape=1" in r and "parse=err" in r:
+            ck.problems.append(("proof", "C15_accepts_and_roundtrips is contradicted by the model on: " + op[0]))
         if "parse=ok" in r:
             acc += 1
             if "shape=1" in r:
